@@ -35,6 +35,8 @@ func (r Rule) String() string {
 		return fmt.Sprintf("lifo(n%d)", r.Node)
 	case "crash":
 		return fmt.Sprintf("crash(n%d,h%d,write %d,restart+%d)", r.Node, r.h(), r.K, r.Delay)
+	case "crash2":
+		return fmt.Sprintf("second-crash(n%d,write %d after the restart)", r.Node, r.K)
 	case "byz-silent":
 		return fmt.Sprintf("byz-silent(%s,h%d r%d)", r.Msg, r.h(), r.Round)
 	case "byz-equiv":
